@@ -14,6 +14,14 @@ Theorem C16_unpack_omitted ds p i d : (length p <= i)%nat -> nth_error ds i = So
 Proof. exact (unpack_omitted ds p i d). Qed.
 Print Assumptions C16_unpack_omitted.
 
+Theorem C16_set_is_parse ds old p : set_again ds old p = unpack ds p.
+Proof. exact (set_is_parse ds old p). Qed.
+Print Assumptions C16_set_is_parse.
+
+Theorem C16_stale_attribute_refuted : exists old p, assign_given old p <> unpack [None; None] p.
+Proof. exact (stale_attribute_refuted ). Qed.
+Print Assumptions C16_stale_attribute_refuted.
+
 Theorem C16_hklf_full n s m1 m2 m3 m4 m5 m6 m7 m8 m9 sm m :
   hklf [n; s; m1; m2; m3; m4; m5; m6; m7; m8; m9; sm; m] =
   {| hk_n := n; hk_s := s; hk_matrix := [m1; m2; m3; m4; m5; m6; m7; m8; m9]; hk_sm := sm; hk_m := m |}.
